@@ -122,9 +122,9 @@ def check_wrappers(prop: str, res: Result, repo: Repo):
         res.fail(RULE, finding(prop, RULE, pr, pr.node, "prev_reading must return None at index 0 and read _active_index - 1 otherwise", construct="prev_reading: guard/offset"))
 
 
-def check_set_reading(prop: str, res: Result, repo: Repo):
+def check_set_reading(prop: str, res: Result, repo: Repo, skip_managed=False):
     sr = repo.method("hexital.core.indicator", "Managed", "set_reading")
-    for p in stmt_paths(sr.node.body):
+    for p in ([] if skip_managed else stmt_paths(sr.node.body)):
         calls = path_calls(p)
         seq = []
         for c in calls:
@@ -149,7 +149,9 @@ def check_set_reading(prop: str, res: Result, repo: Repo):
         t = ast.unparse(e) if e is not None else "?"
         return _ldefs[t][0] if isinstance(e, ast.Name) and len(_ldefs.get(t, ())) == 1 and t not in sr_params else t
 
-    if w and sr_params and [_arg_txt(arg_of(w[0], st0, k)) for k in (0, 1)] == [sr_params[0], "self._active_index"]:
+    if skip_managed:
+        pass
+    elif w and sr_params and [_arg_txt(arg_of(w[0], st0, k)) for k in (0, 1)] == [sr_params[0], "self._active_index"]:
         res.ok(RULE, {"helper": "Managed.set_reading", "writes": "at the managed cursor (_active_index)"})
     else:
         res.fail(RULE, finding(prop, RULE, sr, sr.node, "Managed.set_reading must store at self._active_index", construct="set_reading: target index"))
@@ -239,8 +241,36 @@ def check_set_reading(prop: str, res: Result, repo: Repo):
         res.fail(RULE, finding(prop, RULE, st, st.node, "_set_reading must store helper readings in candle.sub_indicators and top-level readings in candle.indicators under self.name", construct="_set_reading: targets"))
 
 
+def sem_gate(prop: str, res: Result, repo: Repo, helpers, rule=RULE) -> bool:
+    """the contract of each helper decided by evaluation on model inputs (helpersem).  True: decided for all of them (ok recorded /
+    violation reported); False: at least one could not be evaluated -- the shape recogniser gets its turn"""
+    from .helpersem import verdict
+
+    def where(h):
+        if h.startswith("Indicator."):
+            return repo.method("hexital.core.indicator", "Indicator", h.split(".")[1])
+        if h.startswith("Managed."):
+            return repo.method("hexital.core.indicator", "Managed", h.split(".")[1])
+        return repo.func("hexital.utils.candles", h)
+
+    vs = {h: verdict(repo, h) for h in helpers}
+    decided = True
+    for h, (s_, d_) in vs.items():
+        if s_ == "mismatch":
+            fi = where(h)
+            res.fail(rule, finding(prop, rule, fi, fi.node, f"{h} deviates from its contract -- {d_}; the formulas are analysed against that contract, so their verdicts no longer describe what runs", construct=f"{h}: contract"))
+        elif s_ == "ok":
+            res.ok(rule, {"helper": h, "contract": d_}, nontrivial=f"sem:{h}")
+        else:
+            decided = False
+    return decided
+
+
 def check_all(prop: str, res: Result, repo: Repo):
-    check_reading_period(prop, res, repo)
-    check_candles_sum(prop, res, repo)
-    check_wrappers(prop, res, repo)
-    check_set_reading(prop, res, repo)
+    if not sem_gate(prop, res, repo, ("reading_by_candle", "reading_by_index", "reading_period")):
+        check_reading_period(prop, res, repo)
+    if not sem_gate(prop, res, repo, ("candles_sum",)):
+        check_candles_sum(prop, res, repo)
+    if not sem_gate(prop, res, repo, ("Indicator.reading", "Indicator.prev_reading", "Indicator.prev_exists", "Indicator.read_candle", "Indicator.reading_count", "Indicator.reading_period", "Indicator.candles_sum")):
+        check_wrappers(prop, res, repo)
+    check_set_reading(prop, res, repo, skip_managed=sem_gate(prop, res, repo, ("Managed.set_reading",)))
